@@ -216,7 +216,11 @@ class AsyncTasks(Tasks):
             async def cancel_save():
                 """Cancel the save task."""
                 task.cancel()
-                await task
+                try:
+                    await task
+                except asyncio.CancelledError:
+                    # The task was cancelled before it had started.
+                    pass
 
             self._cancel_save = cancel_save
 
